@@ -104,7 +104,7 @@ template <class A> void run_dyn(vf::Ctx& c, int archId) {
 	if (archId == MSGPACK && (g_hasExt || c.src.chance(1, 4))) { refmp::encode(bytes, env, [&](size_t n) -> size_t { return n <= 1 ? 0 : c.src.draw(n); }); c.label("reference-encoder"); }   // any legal width, ext values
 	else so = dyn::save<A>(env, bytes, mem);
 	if (!so.ok()) c.fail("saving the document failed", so.str());
-	Cfg cfg; cfg.stream = c.src.coin(); cfg.streamKind = cfg.stream ? static_cast<int>(c.src.draw(2)) : 0; cfg.chunk = 1 + c.src.draw(40);
+	Cfg cfg; cfg.stream = c.src.coin(); cfg.streamKind = cfg.stream ? gen_stream_kind(c.src, archId == MSGPACK) : 0; cfg.chunk = 1 + c.src.draw(40);
 	cfg.opt.mismatchedTypesPolicy = MismatchedTypesPolicy::Skip; cfg.opt.overflowNumberPolicy = OverflowNumberPolicy::Skip;
 	c.nontrivial = followed; c.label(vf::cat("offences=", count > 3 ? 4 : count)); if (followed) c.label("offence-followed-by-more-data");
 	c.describe(vf::cat(arch_name(archId), " ", refmp::show(doc).substr(0, 260), " offences=", count, " ", cfg.str()));
